@@ -85,11 +85,34 @@ func (l LockPath) Class() string {
 		break
 	}
 	owner := ownerOfField(l, k)
+	on := ownerNamedOfField(l, k)
 	var names []string
-	for _, f := range l.Chain[k:] {
-		names = append(names, f.Name())
+	for i, f := range l.Chain[k:] {
+		if i == 0 && on != nil {
+			names = append(names, canonFieldName(on, f)) // the name the frozen tables know the field by
+		} else {
+			names = append(names, f.Name())
+		}
 	}
 	return owner + "." + strings.Join(names, ".")
+}
+
+func ownerNamedOfField(l LockPath, k int) *types.Named {
+	var t types.Type
+	if k == 0 {
+		t = l.Root.Type()
+	} else {
+		t = l.Chain[k-1].Type()
+	}
+	for {
+		if p, ok := t.Underlying().(*types.Pointer); ok {
+			t = p.Elem()
+			continue
+		}
+		break
+	}
+	n, _ := t.(*types.Named)
+	return n
 }
 
 func ownerOfField(l LockPath, k int) string {
@@ -111,7 +134,7 @@ func ownerOfField(l LockPath, k int) string {
 	}
 	if n, ok := t.(*types.Named); ok {
 		if n.Obj().Pkg() != nil {
-			return n.Obj().Pkg().Name() + "." + n.Obj().Name()
+			return n.Obj().Pkg().Name() + "." + canonTypeName(n)
 		}
 		return n.Obj().Name()
 	}
